@@ -41,7 +41,7 @@ func (q *memoryQueue) Enqueue(item string, priority float64) error {
 		score:     calculateScore(priority),
 		timestamp: time.Now().UnixNano(),
 	})
-	verifhook.Event("mq.push", item, strconv.FormatInt(q.queue[len(q.queue)-1].timestamp, 10))
+	verifhook.Event("mq.push", item, strconv.FormatInt(time.Now().UnixNano(), 10))
 	return nil
 }
 
